@@ -10,7 +10,7 @@ PINS = {  # substring of the commit subject -> (property, [pinned replay files])
     "full VJP": ("C01", ["regress/C01/full-array-fill.json"]),
     "triu/tril": ("C01", ["regress/C01/tri-1d.json"]),
     "outer VJP": ("C01", ["regress/C01/outer-nd.json"]),
-    "cross VJP": ("C01", ["regress/C01/cross-broadcast.json"]),
+    "cross VJP unbroadcasts to the operand": ("C01", ["regress/C01/cross-broadcast.json"]),
     "rfft/irfft VJPs honour": ("C01", ["regress/C01/rfft-norm.json", "regress/C01/irfft-norm.json"]),
     "fft2/fftn VJPs": ("C01", ["regress/C01/fftn-repeated-axes.json"]),
     "norm raises for ord=inf": ("C01", ["regress/C01/norm-inf.json"]),
@@ -63,6 +63,12 @@ PINS["cholesky VJP handles complex Hermitian"] = ("C09", ["regress/C09/cholesky-
 PINS["trace levels are unique and increasing"] = ("C20", ["regress/C20/nested-differentiation-in-worker-thread.json"])
 PINS["conversions to an integer or boolean type"] = ("C14", ["regress/C14/cast-to-int-passes-gradient.json"])
 PINS["arccosh rules follow the principal branch"] = ("C09", ["regress/C09/arccosh-left-half-plane.json"])
+PINS["power rules use the complex logarithm"] = ("C09", ["regress/C09/power-negative-base-complex-exponent.json"])
+PINS["cross VJP reduces broadcast batch axes"] = ("C01", ["regress/C01/cross-axis-kwargs-broadcast.json"])
+PINS["solve VJP treats a 1-D right-hand side"] = ("C01", ["regress/C01/solve-stacked-matrices-vector-rhs.json"])
+PINS["rfft/irfft family VJPs resolve an entry -1"] = ("C01", ["regress/C01/rfftn-s-minus-one.json"])
+PINS["transform the cotangent with the resolved lengths"] = ("C01", ["regress/C01/rfft2-s-last-minus-one.json"])
+PINS["applies to floating-point inputs only"] = ("C15", ["regress/C15/int-stack-forward-tangent.json"])
 PINS["clip VJP reduces its cotangent"] = ("C01", ["regress/C01/clip-array-bounds-broadcast.json"])
 PINS["max/min/var/std JVPs accept an axis"] = ("C02", ["regress/C02/chooser-jvp-numpy-int-axis.json"])
 PINS["FFT VJPs recognise a repeated axis"] = ("C01", ["regress/C01/fftn-repeated-axes-mixed-sign.json"])
